@@ -59,6 +59,10 @@ add("C18", "hypothesis-generated parameter sets and radius/spacing arrays with r
     "Generated search over dislocation/contribution parameter sets (global and phase specific), radius arrays mixing zeros, sub-core and normal radii: every branch finite and non-negative, precipitate strength = M*min(weak, strong, Orowan) recomputed from the branches, zero without precipitates, total strength >= parts and monotone, mixed formulas at 90/0 degrees equal the edge/screw formulas; grain growth runs (log-normal/bimodal distributions, drag levels, 1-3 solve calls, both iterators): volume normalised after every step, mean size non-decreasing without drag, drag never reverses/accelerates and freezes when strong; coupled toy precipitation runs: one strength entry per host row and equal clocks after every host step.",
     "toy binary backend for coupled runs; grid-change steps of the grain model counted, not judged; 1e-4 per-step slack on monotonicity")
 
+add("C17", "hypothesis-generated mobility matrices/fraction vectors against ordering, single-phase and permutation relations (metamorphic); on shipped databases a differential against a reference that applies the rule to per-phase data addressed by phase name, repeated with the cache off/on",
+    "Generated search over 1-4 phases x 1-3 elements with mobility ratios up to 1e8, undefined entries, simplex fractions incl. zeros, labyrinth factors and phase permutations: min <= lower Wiener <= lower HS <= upper HS <= upper Wiener <= max on defined columns, single phase -> its mobility, permutation invariance, labyrinth(1) = upper Wiener >= labyrinth(n). On Fe-Cr-Ni (fcc/bcc in both listing orders, plus sigma without mobility data) and Ni-Cr-Al: every rule x post-processing mode {none, predefined, majority, exclude} at random single- and two-phase points equals the reference that addresses phases by name; three evaluations (cache off/on/on) agree.",
+    "mobility ratio <= 1e8 (conditioning); columns with undefined entries evaluated but not judged; pycalphad equilibria trusted for the per-phase data")
+
 NOT_YET = {"C09": "only the composition-cache (HashTable) clause is built so far; thermodynamic query purity on the shipped databases is pending - claimed once complete"}
 
 ALL = ["C%02d" % i for i in range(1, 21)]
